@@ -14,6 +14,7 @@ SPECS = [
          stmts={"new_data = bytearray(data)": "let new_data := 0",
                 "old_data = self.msg.data": "let old_data := 0",
                 "self.msg.data = new_data": "let stored_ := true",
+                "self.msg.dlc = len(new_data)": "let dlc_current_ := true",
                 "self._task.modify_data(self.msg)": "let act_ := 1",
                 "self._task.stop()": "let act_ := 2",
                 "self._start()": "let act_ := Z.add act_ 1"}),
